@@ -7,6 +7,8 @@ from collections import Counter
 prog = Program.load(sys.argv[1])
 R = Results()
 importlib.import_module(sys.argv[2]).run(prog, R)
+import props
+props.layout_guard(prog, R)
 pref = sys.argv[3:]
 print(sorted(Counter((i['rule'], i['ok']) for i in R.items).items()))
 for i in R.items:
